@@ -15,6 +15,10 @@ class Eof(Exception):
     pass
 
 
+class Spin(Exception):
+    """the code under test keeps reading after the transport reported end of stream (no progress possible)"""
+
+
 class FakeSock:
     """Scripted transport.  `incoming`: list of items, each bytes-like (one transport segment),
     the string "timeout", "eof" or "reset", or an exception instance.  recv(n) returns at most n
@@ -60,6 +64,9 @@ class FakeSock:
                 raise _socket.timeout("timed out")
             if c == "eof":
                 self.incoming.insert(0, "eof")
+                self.eof_reads = getattr(self, "eof_reads", 0) + 1
+                if self.eof_reads > 40:
+                    raise Spin("40 reads after end of stream")
                 return b""
             if c == "reset":
                 raise ConnectionResetError(104, "Connection reset by peer")
